@@ -123,6 +123,18 @@ CLAIMED = {
              "names and orders; the type->branch table is extracted from tx.py on every run.",
         note=TRUST + " Hypothesis `Good`: lint-clean, blackbox-free, no `x`, acyclic, names that `add` accepts.",
         ref="§4 C10"),
+    "C04": dict(
+        technique="Lean 4 theorems (exact node/edge view of the miter, built on the add_subcircuit theorems; solver corollary "
+                  "from the C01 encoder theorems) + exact structural correspondence + exhaustive comparison search",
+        text="Proof: `miter_sem` (for every consistent valuation the two prefixed copies carry consistent valuations of c0 and "
+             "c1, tied startpoints feed both, `sat` = 1 iff some compared endpoint differs; inputs are exactly the tied "
+             "startpoints), `miter_complete` (untied startpoints are independent: every agreeing pair of valuations arises), "
+             "`miter_unsat_iff_equiv` (with any sound+complete solver, solve(m,{sat:1}) is False iff the circuits agree on every "
+             "compared endpoint), `miter_self`, `miter_defaults`, `miter_rejects_blackboxes`, `miter_ok` — all circuit pairs, "
+             "all startpoint/endpoint subsets, all orders.",
+        note=TRUST + " `miter_ok` (no ValueError) needs the synthesised names not to collide and endpoints that are not "
+             "blackbox pins (machine-checked counterexamples in CG/Proofs/MiterCex.lean).",
+        ref="§4 C04"),
 }
 
 NOT_YET = "check not built yet in this round (see DESIGN.md §4 for the plan); will be claimed when its Lean model and harness exist"
